@@ -7,11 +7,14 @@ PID = "C13"
 PROPS_MODULE = "Props.C13"
 THEOREMS = ["series_dispatch_correct", "plot_dispatch_correct", "csv_dispatch_correct", "plot_labels", "tables_same_keys",
             "linspace_endpoints"]
-REQUIRED = ["Props/C13.v", "Model/Series.v"]
+EXTRA_PROPS = {"Props.C13b": ["series_column_values", "series_column_order", "time_series_pointwise", "time_series_example", "series_misaligned_without_it"]}
+REQUIRED = ["Props/C13.v", "Props/C13b.v", "Model/Series.v", "Model/SeriesAsm.v"]
 TRANSLATORS = ["tr_pure", "tr_tables"]
 SHAPE_KEYS = ["decay_time_series", "AbstractInventory::plot", "InventoryHP::plot", "decay_graph", "Inventory::decay", "InventoryHP::decay"]
-PARTIAL = ["pointwise equality of series/curves with separate decays, grids, curve selection and limits are decided on the implementation "
-           "(bit-identical comparison for all 47 read-out kinds x {linear, log}); the proof covers the unit dispatch for every string, the y-labels and the linear grid model",
+PARTIAL = ["the assembly of the series table from separate decays is PROVED pointwise for every list of times and every read-out (Props/C13b.v, model tied by "
+           "source text + the `assemble` evaluation inside Coq per case); that data_map really is the separate decays (map(self.decay, ...)), the grids for log scale, "
+           "curve selection and limits are decided on the implementation (bit-identical comparison for all 47 read-out kinds x {linear, log}); "
+           "the proof also covers the unit dispatch for every string, the y-labels and the linear grid model",
            "numpy.logspace: the exponents are checked bit-exactly against the linear-grid model, the power within 2 ulp (libm pow); matplotlib rendering below Axes.plot is outside the model"]
 TRUSTED_BASE = ["Coq 8.16.1 kernel incl. vm_compute", "axioms: none (primitive float items for the grid model)",
                 "tr_pure.py dispatch-chain extractor; tr_shapes.py ties", "harness tools/impl_series.py (decay_graph wrapped to record its arguments; drawn lines read back from the matplotlib axes)"]
